@@ -92,7 +92,7 @@ def owners(ctx) -> None:
                     continue
                 n += 1
                 ctx.check(fn.ref in allowed, 'R-OWNER', fn, f'`{attr}` is written only by its owner ({sorted(a.split(":")[1] for a in allowed)})', w)
-        ctx.floor(f'R-OWNER.{attr}', n, 3 if attr == '_PORTS' else 1)
+        ctx.floor(f'R-OWNER.{attr}', n, 2 if attr == '_PORTS' else 1)
     pub = prog.func(f'{PORT}:Publishable.publish')
     for w in _stores(pub.node, '_PORTS'):
         in_handler = any(isinstance(a, ast.ExceptHandler) for a in core.ancestors(w))
@@ -131,7 +131,7 @@ def chains_and_guards(ctx) -> None:
     g = cfg.CFG(sn.node)
     regs = [s for s in g.statements() if any(isinstance(c.func, ast.Attribute) and c.func.attr == 'add' and '_PORTS' in core.src(c.func.value) for c in cfg.header_calls(s))]
     checks = [next(a for a in core.ancestors(r) if isinstance(a, ast.If)) for r in core.walk_local(sn.node) if isinstance(r, ast.Raise)]
-    ctx.floor('C11.subscription-checks', len(checks), 4)
+    ctx.floor('C11.subscription-checks', len(checks), 3)
     ctx.check(len(regs) == 1 and all(g.dominates(c, regs[0]) for c in checks), 'C11.guard', sn, f'all {len(checks)} exclusivity checks dominate the registration write', sn.node, key='Subscription:checks-first')
     conds = [core.src(c.test) for c in checks]
     want = {
